@@ -21,7 +21,7 @@ WORKERS = [1, 2, 3, 5, 8, 16]
 
 
 def plan(tier):
-    return {"n": 10 if tier == "quick" else 200, "floor": 10 if tier == "quick" else 100, "samples": 3}
+    return {"n": 10 if tier == "quick" else 40, "floor": 10 if tier == "quick" else 20, "samples": 3}
 
 
 def rule(tier):
